@@ -556,6 +556,7 @@ def extract(unit, repo, out_path, features=None, focus=None):
         if items is not None:
             s = take_items(s, items)
         s = rw.t3_uses_and_cfg(s, features)
+        s = t29_split_or_guard(s, rw)
         s = t28_inline_helpers(s, unit, con, rw)
         s = rw.t2_derives(s)
         s = rw.t1_error_type(s)
@@ -824,6 +825,81 @@ def _split_top(text):
     if ''.join(cur).strip():
         out.append(''.join(cur))
     return [x.strip() for x in out]
+
+
+def _top_split(p, sep):
+    """split p at occurrences of the single character sep at bracket depth 0 (code only)"""
+    out, depth, last = [], 0, 0
+    for kind, a, b in rsrc.tokens(p, 0, len(p)):
+        if kind != 'c':
+            continue
+        c = p[a]
+        if c in '([{':
+            depth += 1
+        elif c in ')]}':
+            depth -= 1
+        elif c == sep and depth == 0:
+            out.append(p[last:a])
+            last = a + 1
+    out.append(p[last:])
+    return out
+
+
+def _top_guard(p):
+    """index of the top-level ` if ` of an arm pattern, or -1"""
+    depth = 0
+    for kind, a, b in rsrc.tokens(p, 0, len(p)):
+        if kind != 'c':
+            continue
+        c = p[a]
+        if c in '([{':
+            depth += 1
+        elif c in ')]}':
+            depth -= 1
+        elif depth == 0 and c == 'i' and p.startswith('if', a) and (a == 0 or not (p[a - 1].isalnum() or p[a - 1] == '_')) \
+                and (a + 2 >= len(p) or not (p[a + 2].isalnum() or p[a + 2] == '_')):
+            return a
+    return -1
+
+
+def t29_split_or_guard(s, rw):
+    """T29.  `A | B if g => e` becomes `A if g => e, B if g => e` (the installed Verus rejects an arm that has both a top-level or-pattern
+    and a guard).  Rust defines the former as trying the alternatives in order, each with the guard, which is what the two arms do; the
+    guard and the body are copied verbatim."""
+    for _round in range(64):
+        mask = rsrc.code_mask(s)
+        edit = None
+        for m in re.finditer(r'\bmatch\b', s):
+            if not mask[m.start()]:
+                continue
+            got = rsrc.inner_match(s, m.start(), len(s))
+            if not got or got[0] != m.start():
+                continue
+            try:
+                arms = rsrc.match_arms(s, got[1], got[2])
+            except Exception:
+                continue
+            for arm in arms:
+                pat = arm['pat']
+                g = _top_guard(pat)
+                if g < 0:
+                    continue
+                alts = [a.strip() for a in _top_split(pat[:g], '|')]
+                if alts and alts[0] == '':
+                    alts = alts[1:]
+                if len(alts) < 2 or any(a == '' for a in alts):
+                    continue
+                guard = pat[g:].strip()
+                body = s[arm['body_start']:arm['body_end']]
+                edit = (arm['pat_start'], arm['body_end'], ',\n'.join('%s %s => %s' % (a, guard, body) for a in alts), len(alts))
+                break
+            if edit:
+                break
+        if not edit:
+            break
+        s = s[:edit[0]] + edit[2] + s[edit[1]:]
+        rw.count('T29', edit[3])
+    return s
 
 
 def t28_inline_helpers(s, unit, con, rw):
